@@ -10,6 +10,7 @@ import SecpZkp.Driver.Rangeproof
 import SecpZkp.Driver.Musig
 import SecpZkp.Driver.Surjection
 import SecpZkp.Driver.Context
+import SecpZkp.Driver.MiniC
 import Std.Data.HashMap
 /-
   secpmodel: reads one operation per line on stdin, prints the model's result line.
@@ -17,7 +18,7 @@ import Std.Data.HashMap
 open SecpZkp SecpZkp.Driver
 
 def allHandlers : List (String × Handler) :=
-  basicHandlers ++ generatorHandlers ++ ellswiftHandlers ++ adaptorHandlers ++ s2cHandlers ++ whitelistHandlers ++ halfaggHandlers ++ bpppHandlers ++ rangeproofHandlers ++ contextHandlers ++ musigHandlers ++ surjectionHandlers
+  basicHandlers ++ generatorHandlers ++ ellswiftHandlers ++ adaptorHandlers ++ s2cHandlers ++ whitelistHandlers ++ halfaggHandlers ++ bpppHandlers ++ rangeproofHandlers ++ contextHandlers ++ minicHandlers ++ musigHandlers ++ surjectionHandlers
 
 def table : Std.HashMap String Handler := Std.HashMap.ofList allHandlers
 
